@@ -187,6 +187,59 @@ func runC03(c *Ctx) {
 		c.obNever("refusal", f, isRefusal, append(append([]string{}, advancing...), "go:"), []string{lReadLine}, nil)
 	}
 
+	// ... and an out-of-order or malformed command (50x) does not end the transaction either: no Reset callback, no
+	// clearing of the sender, neither directly nor through a deferred call registered before the refusal (a
+	// `defer c.reset()` hoisted above the state checks of handleData turns "DATA without recipients" into an RSET)
+	R.Rule("R-refusal-no-reset", "E2 never-after incl. deferred calls", "after a 500-504 refusal with a constant code the handler performs no Session.Reset and does not clear the sender before it returns, also not through a defer registered earlier", 20)
+	is50x := func(in ssa.Instruction) bool {
+		_, code, isConst, ok := replyCall(in)
+		return ok && isConst && code >= 500 && code <= 504
+	}
+	noReset := []string{lSessReset, "st:Conn.fromReceived=false"}
+	for _, f := range c.P.AllFuncs() {
+		fn := funcName(f)
+		if !strings.HasPrefix(fn, "(*Conn).handle") || f.Parent() != nil {
+			continue
+		}
+		f := f
+		var defers []*ssa.Defer
+		allInstrs(f, func(in ssa.Instruction) {
+			if d, ok := in.(*ssa.Defer); ok {
+				defers = append(defers, d)
+			}
+		})
+		allInstrs(f, func(t ssa.Instruction) {
+			if !is50x(t) {
+				return
+			}
+			v := RunPend(f, PendRule{
+				Trig: func(in ssa.Instruction) bool { return in == t },
+				Forbid: func(in ssa.Instruction) bool {
+					if in == t {
+						return false
+					}
+					if _, isDefer := in.(*ssa.Defer); isDefer {
+						return false
+					}
+					if rd, isRD := in.(*ssa.RunDefers); isRD {
+						for _, d := range defers {
+							if reachesInstr(d, rd) && hasAny(s.deferMay(d), noReset...) {
+								return true
+							}
+						}
+						return false
+					}
+					return c.mayForbidFirst(in, noReset, nil, 0)
+				},
+			})
+			d := ""
+			if len(v) > 0 {
+				d = fmt.Sprintf("after the refusal at %s the handler reaches %s, which resets the transaction (Session.Reset / sender cleared): a refused command ends the transaction the client is still building", c.P.InstrPos(t), c.P.InstrPos(v[0].At))
+			}
+			R.Ob(c.siteKey(t, "refusal leaves the transaction alone"), c.P.InstrPos(t), len(v) == 0, d)
+		})
+	}
+
 	R.Rule("R-refusal-5xx", "E1 must-under", "each out-of-order state leads to a 5xx reply (452 for the recipient limit) on every path", 9)
 	type ref struct {
 		fn    string
